@@ -678,6 +678,44 @@ func checkC19(w *fw.Worker, cmds []string, cliToo bool) *fw.Violation {
 			}
 		}
 	}
+	// a shape's rendering is a function of the command and the pen in effect, not of its neighbours: drawing the same command twice
+	// in a row leaves the first shape as it was and gives the second one the same style (the writer has one path for a shape that
+	// stands alone between two style changes and another for shapes that share a group)
+	for i := range cmds {
+		k := len(refCanvas(cmds[:i]).shapes)
+		if len(refCanvas(cmds[:i+1]).shapes) != k+1 {
+			continue // not a drawing command
+		}
+		twice := append(append(append([]string(nil), cmds[:i+1]...), cmds[i]), cmds[i+1:]...)
+		svg2, class2, _ := runSVG(twice)
+		root2, err2 := parseSVG([]byte(svg2))
+		if class2 != "ok" || err2 != nil {
+			return viol("repeated-command-fails", "drawing a command a second time fails", "ok", class2+"\n"+fw.Trunc(svg2, 400))
+		}
+		var got2 []c19Shape
+		flatten(root2, map[string]string{}, &got2, false)
+		if w != nil {
+			w.Count("repeated-command-runs", 1)
+		}
+		if len(got2) != len(got)+1 {
+			return viol("shape-count", "the document does not contain exactly one shape per drawing command", fmt.Sprint(len(got)+1, " shapes"), fmt.Sprint(len(got2), " shapes: ", kinds(got2), "\n", fw.Trunc(svg2, 800)))
+		}
+		show := func(s c19Shape, withGeo bool) string {
+			f := "no font"
+			if s.Font != nil {
+				f = fmt.Sprintf("%+v", *s.Font)
+			}
+			if !withGeo {
+				return fmt.Sprintf("%s style %+v colour %q font %s", s.Kind, s.Style, s.Color, f)
+			}
+			return fmt.Sprintf("%s %s %q style %+v colour %q font %s", s.Kind, s.Geo, s.Text, s.Style, s.Color, f)
+		}
+		a, b, c := got[k], got2[k], got2[k+1]
+		if show(a, true) != show(b, true) || show(a, false) != show(c, false) {
+			return viol("rendering-depends-on-neighbours:"+a.Kind, fmt.Sprintf("shape %d is rendered differently when the same command is drawn a second time right after it", k),
+				show(a, true), "first: "+show(b, true)+" ; second: "+show(c, false)+"\n"+fw.Trunc(svg2, 600))
+		}
+	}
 	if narrow != nil {
 		return narrow
 	}
